@@ -11,6 +11,7 @@
   it on automata produced by the library's own sharpening pipeline: finding C06-F1 below.
 -/
 import PS.Proofs.UcfgFromDftaLang
+import PS.Proofs.UcfgFromDftaCount
 import PS.Proofs.FromCfg
 namespace PS.C06
 open PS PS.G PS.U PS.U.FD DFTA
@@ -68,6 +69,46 @@ theorem C06_ngram_unambiguous_partial (n : Int) (d : Q → UNT U) (A : DFTA Sym 
     (h : fromDFTAWithNgrams n d A fuel = some G) (t : Prog) :
     (reduceAll G t).length = if A.accepts t = true then 1 else 0 :=
   reduceAll_length (built_of_build _ A _ G h) (ngramFlat_ok n d A hinj) hd t
+
+/-! ## `programs()` -/
+
+/-- **count.** For an ACYCLIC automaton, whenever `programs()` of the grammar returns `n`
+    (memo table, any recursion budget), `n` is the length of a list that contains exactly the
+    accepted programs (`PS.U.langU` from the start symbols: one entry per derivation, and by
+    `C06_unambiguous_partial` every accepted program has exactly one derivation).
+    Not proved here: that this list has no repetition (compared on every case instead: the
+    harness counts the accepted trees independently). -/
+theorem C06_count_enum_partial (d : Q → UNT U) (A : DFTA Sym Q) (hd : A.Det) (hinj : InjOn d A)
+    (hac : Acyclic A) (G : UCFG U) (h : fromDFTA d A = some G) (fuel n : Nat)
+    (hp : programs G fuel = some n) :
+    ∃ L : List Prog, n = L.length ∧ ∀ t, t ∈ L ↔ A.accepts t = true := by
+  obtain ⟨rank, hrank⟩ := hac
+  have hb := built_of_build _ A _ G h
+  have ok := plainFlat_ok d A hinj
+  exact ⟨_, programs_eq_enum hb ok rank hrank fuel n hp, mem_langU_starts hb ok hd rank hrank⟩
+
+theorem C06_ngram_count_enum_partial (w : Int) (d : Q → UNT U) (A : DFTA Sym Q) (hd : A.Det)
+    (hinj : InjOn d A) (hac : Acyclic A) (bfuel : Nat) (G : UCFG (List (Sym × Nat) × U))
+    (h : fromDFTAWithNgrams w d A bfuel = some G) (fuel n : Nat) (hp : programs G fuel = some n) :
+    ∃ L : List Prog, n = L.length ∧ ∀ t, t ∈ L ↔ A.accepts t = true := by
+  obtain ⟨rank, hrank⟩ := hac
+  have hb := built_of_build _ A _ G h
+  have ok := ngramFlat_ok w d A hinj
+  exact ⟨_, programs_eq_enum hb ok rank hrank fuel n hp, mem_langU_starts hb ok hd rank hrank⟩
+
+/-- every non-terminal of the grammar of an acyclic automaton completes all its derivations
+    within (sum of the ranks) + 1 levels: the grammar is not recursive -/
+theorem C06_bounded_partial (d : Q → UNT U) (A : DFTA Sym Q) (hinj : InjOn d A)
+    (rank : Q → Nat) (hrank : ∀ r ∈ A.rules, ∀ a ∈ r.1.2, rank a < rank r.2)
+    (G : UCFG U) (h : fromDFTA d A = some G) (s : UNT U) (hs : s ∈ G.starts) :
+    boundedU G (levelOf A rank + 1) s = true := by
+  have hb := built_of_build _ A _ G h
+  have ok := plainFlat_ok d A hinj
+  rw [hb.starts_eq] at hs
+  obtain ⟨q, hqf, hqs⟩ := (mem_startsOf _ A s).mp hs
+  have hqa := mem_finals_allStates A q hqf
+  exact bounded_key hb ok rank hrank _ s q (rank_le_levelOf A rank q hqa)
+    (hb.starts s (by rw [hb.starts_eq]; exact hs)) hqa (by rw [← hqs, ok.proj_root])
 
 /-! ## with the Python state values and `__d2state__` -/
 
@@ -145,6 +186,14 @@ example : ∃ G, fromDFTAPy false plain = some G ∧ G.starts.length = 2 ∧ G.r
     (reduceAll G (.node sf [.node sf [tb, ta], ta])).length = 1 := ⟨_, rfl, by decide⟩
 example : ∃ G, fromDFTAWithNgramsPy false 2 plain 100 = some G ∧ G.rules.length = 7 ∧
     contains G (.node sf [.node sf [tb, ta], ta]) = true := ⟨_, rfl, by decide⟩
+
+
+/-- the ranking that shows `plain` acyclic -/
+def rk : PyVal → Nat
+  | .tup [_, .int n] => n.toNat
+  | _ => 0
+example : Acyclic plain := ⟨rk, by decide⟩
+example : ∃ G, fromDFTAPy false plain = some G ∧ programs G 10 = some 4 := ⟨_, rfl, by decide⟩
 
 /-- states of the shape the sharpening pipeline produces after two constraints and a sketch:
     a product `(class, state)` whose first component is a one-element class of `minimise`
